@@ -14,7 +14,7 @@
                                       it from the top frame on every call / return / unwind
    plus three logs used only to state theorems (loader calls, started module bodies, module objects
    handed to import statements).  The host loader and the compiler are oracles (Section variables). *)
-From Coq Require Import List String NArith Bool Arith.
+From Coq Require Import List String Ascii NArith Bool Arith.
 Import ListNotations.
 Open Scope string_scope.
 
@@ -73,6 +73,17 @@ Definition undefined_variable (x : name) : string := "Undefined variable '" ++ x
 Definition undefined_property (x : name) : string := "Undefined property '" ++ x ++ "'.".
 (* host loader of the harness and of tests/test.rs; vm.rs's default loader has the same shape *)
 Definition not_found_msg (p : path) : string := "Unable to read file '" ++ p ++ ".yl' (file not found).".
+
+(* format strings: the first "{}" is the hole *)
+Fixpoint fill (fmt p : string) : string :=
+  match fmt with
+  | EmptyString => EmptyString
+  | String c r =>
+    match r with
+    | String d r' => if (Ascii.eqb c "{"%char && Ascii.eqb d "}"%char)%bool then (match r' with EmptyString => p | _ => p ++ r' end) else String c (fill r p)
+    | EmptyString => String c EmptyString
+    end
+  end.
 
 (* the order of the stages of start_import_impl, as hard-wired in `start_import` below *)
 Inductive stage := StRegistry | StLoader | StCompile | StRegister | StCall | StBuiltins.
